@@ -30,8 +30,9 @@ CHECK = Check(
 TOL = 1e-9
 
 
-def _obj(yaw, qs, pr, label="car"):
-    return {"p": [3.0, -2.0, 0.5], "yaw": yaw, "qs": qs, "pr": pr, "size": [2.0, 4.0, 1.5], "label": label, "score": 0.7}
+def _obj(yaw, qs, pr, label="car", origin=False):
+    # origin=True: the object sits exactly on the origin of the frame it is expressed in (e.g. the map origin)
+    return {"p": [0.0, 0.0, 0.0] if origin else [3.0, -2.0, 0.5], "yaw": yaw, "qs": qs, "pr": pr, "size": [2.0, 4.0, 1.5], "label": label, "score": 0.7}
 
 
 @st.composite
@@ -52,7 +53,11 @@ def pairs(draw, tier="quick"):
     rp = draw(st.sampled_from([None, None, None, "rp"]))
     pre = [draw(GEN.fl(-0.1, 0.1)), draw(GEN.fl(-0.1, 0.1))] if rp else [0.0, 0.0]
     prg = [draw(GEN.fl(-0.1, 0.1)), draw(GEN.fl(-0.1, 0.1))] if rp else [0.0, 0.0]
-    return {"kind": kind, "ye": ye, "yg": yg, "qse": draw(GEN.qsigns()), "qsg": draw(GEN.qsigns()), "pre": pre, "prg": prg, "ego": draw(GEN.ego_poses())}
+    ego = draw(GEN.ego_poses())
+    origin = draw(st.integers(0, 5)) == 0
+    if origin:
+        ego = [0.0, 0.0, ego[2]]  # ego on the map origin (any yaw): the objects then sit exactly on the map origin, too
+    return {"kind": kind, "ye": ye, "yg": yg, "qse": draw(GEN.qsigns()), "qsg": draw(GEN.qsigns()), "pre": pre, "prg": prg, "ego": ego, "origin": origin}
 
 
 def gen_grid(tier):
@@ -76,7 +81,9 @@ def _weight(ctx, e, g, what, tr=None):
 
 
 def _body(ctx, d):
-    eo, go = _obj(d["ye"], d["qse"], d["pre"]), _obj(d["yg"], d["qsg"], d["prg"])
+    eo, go = _obj(d["ye"], d["qse"], d["pre"], origin=bool(d.get("origin"))), _obj(d["yg"], d["qsg"], d["prg"], origin=bool(d.get("origin")))
+    if d.get("origin"):
+        ctx.cls("objects_on_frame_origin")
     # reference: yaw of each physical orientation, minimal absolute difference
     y_e, y_g = G.yaw_of(D.obj_quat(eo)), G.yaw_of(D.obj_quat(go))
     dref = G.absdiff_angle(y_e, y_g)
